@@ -27,8 +27,10 @@ def main():
         demo_dst = os.path.join(wt, demo_rel)
         pkg = "./" + os.path.dirname(demo_rel) if os.path.dirname(demo_rel) else "."
         shutil.copy(os.path.join(mutdir, "demo_test.go"), demo_dst)
-        rc0, out0 = sh("go test -vet=off -count=1 -timeout 10m -run 'Demo|demo|C[0-9][0-9]|Mutant|ZZ|Zz' %s 2>&1 | tail -15" % pkg, cwd=wt)
-        rc0, out0b = sh("go test -vet=off -count=1 -timeout 10m %s > /tmp/seed_demo_clean.log 2>&1; echo rc=$?" % pkg, cwd=wt)
+        import re
+        names = re.findall(r"^func (Test\w+)\(", open(demo_dst).read(), flags=re.M)
+        runpat = "^(" + "|".join(names) + ")$" if names else "."
+        rc0, out0b = sh("go test -vet=off -count=1 -timeout 10m -run '%s' %s > /tmp/seed_demo_clean.log 2>&1; echo rc=$?" % (runpat, pkg), cwd=wt)
         clean_ok = "rc=0" in out0b
         meta["ran"].append({"cmd": "demo on unchanged tree (go test %s)" % pkg, "passes": clean_ok})
         rc, out = sh("git apply %s" % os.path.join(mutdir, "patch.diff"), cwd=wt)
@@ -36,7 +38,7 @@ def main():
         rc, out = sh("go build ./... && go vet -tags verif . >/dev/null 2>&1; go build -tags verif ./...", cwd=wt)
         meta["ran"].append({"cmd": "go build ./... with the change", "ok": rc == 0})
         assert rc == 0, out
-        rc1, out1 = sh("go test -vet=off -count=1 -timeout 10m %s > /tmp/seed_demo_mut.log 2>&1; echo rc=$?" % pkg, cwd=wt)
+        rc1, out1 = sh("go test -vet=off -count=1 -timeout 10m -run '%s' %s > /tmp/seed_demo_mut.log 2>&1; echo rc=$?" % (runpat, pkg), cwd=wt)
         mut_fails = "rc=0" not in out1
         meta["ran"].append({"cmd": "demo with the change (go test %s)" % pkg, "fails": mut_fails})
         suite_ok = None
